@@ -88,6 +88,110 @@ CHECKS = {
                   "correspondence", ref="DESIGN.md §4 C16"),
 }
 
+CHECKS.update({
+    'C02': dict(
+        text="Lean theorems C02_inv/_final/_progress/_terminates/_maximal_returns + flush_*: for "
+             "every schedule of tasks, collector thread and purge, collected ++ queued ++ "
+             "not-yet-put = the task's sequential result list per path; at return nothing is "
+             "left; no deadlock; batches re-assemble the result list. " + CORR +
+             "Real multi-process runs are compared per path with the same file searched alone "
+             "in-process; the recorded hand-over trace is replayed through the model.",
+        note=ASSUME_COMMON + "OS scheduling, manager queue (FIFO per producer, a returned put is "
+             "visible) are assumptions sampled by real runs.",
+        technique="Lean 4 proof (inductive invariant + measure over a transition system) + "
+                  "differential correspondence with trace validation", ref="DESIGN.md §4 C02"),
+    'C05': dict(
+        text="Lean theorems C05_roundtrip/_two_batches/_encode_total over C15: reading an "
+             "exported result through ANY later state of the store gives exactly the captured "
+             "values (by index, by name, by iteration, tag, sequence id), None for unmatched "
+             "groups, regardless of duplicates / roll-over / textual collisions. " + CORR,
+        note=ASSUME_COMMON + "Python ==/hash on str/int; cast functions are oracles; the "
+             "parallel case composes C05 with C06_resolve (composition sampled by MP runs).",
+        technique="Lean 4 proof (round trip through an append-only injective table) + "
+                  "differential correspondence in-process and multi-process",
+        ref="DESIGN.md §4 C05"),
+    'C06': dict(
+        text="Lean theorems C06_disjoint/_no_shared_index/_resolve/_nodeadlock/_bounded_work: "
+             "for every interleaving of any number of workers at the granularity of single "
+             "shared accesses, granted blocks are pairwise disjoint, handed-out indices never "
+             "collide, synced indices resolve to the stored value, no deadlock. " + CORR +
+             "The REAL ResultStoreParallel is driven by a controlled scheduler; every trace is "
+             "replayed through the model's step relation.",
+        note=ASSUME_COMMON + "Each single manager-proxy access is atomic; scheduler-level lock "
+             "stands for multiprocessing.Lock.",
+        technique="Lean 4 proof (inductive invariants over a labelled transition system) + "
+                  "controlled-scheduler trace validation", ref="DESIGN.md §4 C06"),
+    'C08': dict(
+        text="Lean theorem C08_persist_independent: from whatever state earlier runs left in "
+             "the definition objects the task yields the results of fresh objects (up to the "
+             "renaming of fresh section ids). " + CORR + "Histories of runs sharing objects are "
+             "compared run by run with the same scenario in a fresh interpreter.",
+        note=ASSUME_COMMON + "A fresh interpreter is the reference for 'a fresh process'.",
+        technique="Lean 4 proof (simulation between persisted and fresh state) + differential "
+                  "correspondence against fresh interpreters", ref="DESIGN.md §4 C08"),
+    'C09': dict(
+        text="Lean theorems C09_*: stable sort + cap keeps exactly min(depth, n) lowest-keyed "
+             "rotated copies per stem, plain and live files always kept, non-files ignored, no "
+             "duplicates, one catalog entry per path carrying all searches in order. " + CORR +
+             "Real directories registered as file / dir / glob.",
+        note=ASSUME_COMMON + "The three regexes of search.py enter the model as their per-name "
+             "result (oracle, cross-checked with an independent classifier).",
+        technique="Lean 4 proof (sorting/permutation lemmas, association-list spec) + "
+                  "differential correspondence on real directories", ref="DESIGN.md §4 C09"),
+    'C10': dict(
+        text="Lean theorems over the fault transition system (crash / raise labels, lock "
+             "ownership, joins): from every reachable state a final state is reachable; a failed "
+             "run ends raised with the store lock free and helper threads joined; a following "
+             "run returns. " + CORR + "Fault enumeration on the real code, each plan in its own "
+             "interpreter under a watchdog, followed by a second run.",
+        note=ASSUME_COMMON + "ProcessPoolExecutor's broken-pool handling and process reaping are "
+             "assumed; latency only bounded by a generous watchdog.",
+        technique="Lean 4 proof (invariant + reachability of final states over a transition "
+                  "system with fault labels) + fault enumeration", ref="DESIGN.md §4 C10"),
+    'C12': dict(
+        text="Lean theorem C12_gzip_transparent: in the model of execute() nothing but the open "
+             "logic looks at the raw bytes, so gzip and plain give equal results and statistics "
+             "(incl. the zero-length shortcut vs an empty archive). " + CORR +
+             "Every C01/C03/C04/C07 scenario is run plain and gzip (levels 1/6/9, multi-member).",
+        note=ASSUME_COMMON + "GzipFile's seek/tell/read emulation is assumed by the model and "
+             "is what the correspondence exercises.",
+        technique="Lean 4 proof (transparency lemma) + differential correspondence plain vs "
+                  "gzip", ref="DESIGN.md §4 C12"),
+    'C13': dict(
+        text="Lean theorems C13_task_outcome/_iff/_file_outcome + seek_no_assert: the only error "
+             "reachable from content is UnicodeDecodeError, exactly when a searched line does "
+             "not decode; asserts unreachable; totality by construction. " + CORR +
+             "Malformed content stream x decode policies x constraints with a hang watchdog.",
+        note=ASSUME_COMMON + "CPython re run time is outside the model (claim is about "
+             "content, not patterns).",
+        technique="Lean 4 proof (unreachability of error constructors) + differential "
+                  "correspondence on a malformed-input stream", ref="DESIGN.md §4 C13"),
+    'C17': dict(
+        text="Lean theorems C17_stats_exact/_per_job with runTask_stats and "
+             "C08_persist_independent: statistics equal the counts of the run just finished. "
+             + CORR + "Single/multi-file runs and repeated runs of one searcher.",
+        note=ASSUME_COMMON, technique="Lean 4 proof (counting lemmas) + differential "
+        "correspondence incl. repeated runs", ref="DESIGN.md §4 C17"),
+    'C18': dict(
+        text="Lean theorems C18_bounds/_value/_plan + pool system C18_pool_once/_workers/"
+             "_final/_progress: parallelism = min(max_parallel_tasks, cpus, files) (0 => 1), one "
+             "file in-process, every task executed exactly once by one of <= n workers for "
+             "every schedule. " + CORR + "Exhaustive num_parallel_tasks table (10 725 "
+             "configurations) and real runs with pid traces.",
+        note=ASSUME_COMMON + "ProcessPoolExecutor(max_workers=n) spawning <= n processes is "
+             "assumed (sampled).", technique="Lean 4 proof (arithmetic + transition system) + "
+        "exhaustive table comparison + pid-trace witness validation", ref="DESIGN.md §4 C18"),
+    'C19': dict(
+        text="Lean theorems C19_linearizable/_returns/_per_process_order/_nodeadlock/"
+             "_run_bounded: every interleaving of the lock-protected operations is a legal "
+             "sequential register history in critical-section order. " + CORR +
+             "Real processes on a shared path; critical-section trace replayed through the model; "
+             "fallback linearisability search.",
+        note=ASSUME_COMMON + "fasteners fcntl lock, dbm durability, CLOCK_MONOTONIC across "
+             "processes are assumed.", technique="Lean 4 proof (linearisability by invariant) + "
+        "trace validation of real multi-process histories", ref="DESIGN.md §4 C19"),
+})
+
 NOT_YET = {}
 
 
